@@ -10,6 +10,7 @@ import (
 	"context"
 	"time"
 
+	"github.com/conduitio/conduit/pkg/connector"
 	"github.com/conduitio/conduit/pkg/pipeline"
 )
 
@@ -17,6 +18,8 @@ func init() {
 	verifRegister("VerifLifecycleRetryWindow", VerifLifecycleRetryWindow)
 	verifRegister("VerifLifecycleStartDuringBackoff", VerifLifecycleStartDuringBackoff)
 	verifRegister("VerifLifecycleStatusWriteFails", VerifLifecycleStatusWriteFails)
+	verifRegister("VerifLifecycleInitResume", VerifLifecycleInitResume)
+	verifRegister("VerifLifecycleReconfigureCancelled", VerifLifecycleReconfigureCancelled)
 }
 
 func lSettle(virtual, real time.Duration) {
@@ -156,4 +159,120 @@ func lPick(virtual, real time.Duration) time.Duration {
 		return virtual
 	}
 	return real
+}
+
+// VerifLifecycleInitResume (C03): what a restarted server does with a stored
+// pipeline. The pipeline service has turned a "running" status into
+// "system stopped" on load; lifecycle Init must start exactly those pipelines
+// again - whoever created them (API or a configuration file) - and the source
+// resumes right after the stored position. Pipelines the user stopped or that
+// degraded stay stopped.
+func VerifLifecycleInitResume() {
+	K := verifParam("K", 2)
+	w, svc := newLifecycleWorld(lCfg{K: K, M: 1, stopAfter: 0, dlqSize: 0, dlqTh: 0, recovery: lRecovery(0)})
+	w.dests["dest0"].ackAll = true
+	stored := verifConcrete(verifChoice("stored", K+1)) - 1 // -1: nothing stored yet
+	if stored >= 0 {
+		w.conns["src"].State = connector.SourceState{Position: lPos(stored)}
+		for i := 0; i <= stored; i++ {
+			// acknowledged (and handled) by the run before the restart
+			w.src.acks = append(w.src.acks, i)
+		}
+	}
+	if verifBool("fromConfigFile") {
+		w.pl.ProvisionedBy = pipeline.ProvisionTypeConfig
+	} else {
+		w.pl.ProvisionedBy = pipeline.ProvisionTypeAPI
+	}
+	status := []pipeline.Status{pipeline.StatusSystemStopped, pipeline.StatusUserStopped, pipeline.StatusDegraded}[verifConcrete(verifChoice("status", 3))]
+	w.pl.SetStatus(status)
+	ctx := context.Background()
+	err := svc.Init(ctx)
+	verifAssert(err == nil, "c03-init-failed")
+	if status == pipeline.StatusSystemStopped {
+		verifAssert(w.lastStatus() == pipeline.StatusRunning, "c03-running-pipeline-not-resumed-after-restart")
+		<-w.src.openCh
+		w.mu.Lock()
+		reopen := w.src.opens[len(w.src.opens)-1]
+		w.mu.Unlock()
+		verifAssert(reopen == stored, "c03-reopened-with-wrong-position")
+		verifAssert(svc.StopAndWait(ctx, "pl") == nil, "c11-live-run-cannot-be-stopped")
+		w.mu.Lock()
+		// reading resumed right after the stored position, nothing read was dropped
+		for k, i := range w.src.emitted {
+			verifAssert(i == stored+1+k, "c03-resumed-run-skipped-a-record")
+			verifAssert(w.handledLocked(i), "c03-record-after-stored-position-lost")
+		}
+		w.mu.Unlock()
+		verifCover("resumed")
+	} else {
+		verifAssert(lCount(w, pipeline.StatusRunning) == 0, "c10-stopped-pipeline-started-by-init")
+		verifCover("left-stopped")
+	}
+	w.checkReleased("c11")
+}
+
+// VerifLifecycleReconfigureCancelled (C13): lifecycle.ReconfigureProcessor on a
+// running pipeline whose caller gives up while the node is already opening the
+// new processor. The swap still completes: the processor that went live must
+// stay usable, the next record is processed by it and delivered.
+func VerifLifecycleReconfigureCancelled() {
+	w, svc := newLifecycleWorld(lCfg{K: 1, M: 1, stopAfter: 1, dlqSize: 0, dlqTh: 0, recovery: lRecovery(0), withProc: true})
+	w.dests["dest0"].ackAll = true
+	ctx := context.Background()
+	if err := svc.Start(ctx, "pl"); err != nil {
+		verifFail("c13-start-failed")
+	}
+	<-w.src.served
+	lSettle(10*time.Millisecond, 100*time.Millisecond) // record 0 went through the first processor
+	cancelled := verifBool("callerGivesUp")
+	w.mu.Lock()
+	w.slowOpen = true
+	w.mu.Unlock()
+	rctx, rcancel := context.WithCancel(ctx)
+	var rerr error
+	rdone := make(chan struct{})
+	go func() { defer close(rdone); rerr = svc.ReconfigureProcessor(rctx, "pl", "proc1") }()
+	var fresh *lProcPlugin
+	for fresh == nil {
+		w.mu.Lock()
+		if len(w.procs) >= 2 {
+			fresh = w.procs[1]
+		}
+		w.mu.Unlock()
+		if fresh == nil {
+			time.Sleep(time.Millisecond)
+		}
+	}
+	<-fresh.entered // the node claimed the request and is opening the new processor
+	if cancelled {
+		rcancel()
+		<-rdone
+	}
+	close(fresh.gate)
+	<-rdone
+	rcancel()
+	lSettle(10*time.Millisecond, 100*time.Millisecond)
+	// a second record arrives after the swap
+	w.mu.Lock()
+	w.K = 2
+	w.mu.Unlock()
+	w.src.more <- struct{}{}
+	lSettle(10*time.Millisecond, 200*time.Millisecond)
+	if !cancelled {
+		verifAssert(rerr == nil, "c13-swap-failed")
+	}
+	err := svc.StopAndWait(ctx, "pl")
+	w.mu.Lock()
+	d := w.dests["dest0"]
+	verifAssert(len(d.written) == 2 && d.acked[1], "c13-record-dropped")
+	if len(d.versions) == 2 {
+		verifAssert(d.versions[0] == "1" && d.versions[1] == "2", "c13-record-after-switch-used-old")
+	}
+	verifAssert(fresh.opened == 1 && fresh.tornDown <= 1, "c13-live-processor-torn-down")
+	w.mu.Unlock()
+	verifAssert(err == nil, "c13-pipeline-failed-after-swap")
+	verifAssert(w.lastStatus() == pipeline.StatusUserStopped, "c11-status-after-stop")
+	verifObserve("reconfigured", cancelled, rerr != nil)
+	verifCover("end")
 }
